@@ -119,6 +119,10 @@ def run_family(prop, tier, seed, replay, origin="writer", mc_cfg=None, level="mo
             for cl in fl["clauses"]:
                 if cl not in mine:
                     continue
+                envtxt = str(fl["case"].get("write_err", "")) + str(fl["case"].get("open_err", ""))
+                if "timed out waiting for connection" in envtxt:
+                    # r2d2's 30 s wait for an SQLite connection ran out five times in a row: the load of this machine, not a verdict
+                    raise C.ToolError("environment: SQLite connection pool timed out repeatedly (machine overloaded): %s" % envtxt[:200])
                 rec = {"clause": cl, "source": source, "fmt": fl["case"]["fmt"], "tf": fl["case"]["tf"], "tc": fl["case"]["tc"],
                        "origin": fl["case"]["origin"], "via": fl["case"].get("via", "file"), "case": fl["case"]}
                 if cl == "stream":
